@@ -339,6 +339,60 @@ def rule_roundtrip(ctx) -> None:
     ], floor=2)
 
 
+def rule_isk_roundtrip(ctx) -> None:
+    """C03.isk-roundtrip: IskCertificate built, exported and parsed back on the evaluator (constructor, flags, signature_offset /
+    expected_size properties, export and parse are interpreted; a public key is a model object that knows its raw bytes, coordinate
+    size and curve): the parsed certificate has the constraints, flags, key bytes, user data and signature of the exported one and
+    exports to the same bytes - P-256 and P-384 keys, with and without user data."""
+    from ..engines import ordereval as oe, roundtrip
+    Obj = oe.Obj
+    k = ctx.cls(CB, "IskCertificate")
+    ex = ctx.own(CB, "IskCertificate", "export")
+
+    def leaves(c: ast.Call, ev):
+        f = norm(c.func)
+        if f == "convert_to_ecc_key" and len(c.args) == 1:
+            v = ev.ev(c.args[0])
+            if isinstance(v, (bytes, bytearray)):
+                return Obj(_key=bytes(v), coordinate_size=len(v) // 2, curve={32: "secp256r1", 48: "secp384r1"}.get(len(v) // 2, "?"))
+            return v
+        if isinstance(c.func, ast.Attribute) and c.func.attr == "export" and not c.args:
+            try:
+                o = ev.ev(c.func.value)
+            except oe.Unsupported:
+                return oe.NOT_MODELLED
+            if isinstance(o, Obj) and "_key" in o.__dict__:
+                return o.__dict__["_key"]
+        return roundtrip.std_leaves(c, ev)
+    calls = ctx.model_calls(leaves, classes={"IskCertificate": k}, module=CB, max_depth=6)
+    probs = []
+    n = 0
+    for label, key, user, sig in (("P-256 key, 8 bytes of user data", bytes(range(1, 65)), b"U" * 8, b"S" * 64), ("P-256 key, no user data", bytes(range(1, 65)), None, b"S" * 64),
+                                  ("P-384 key, 16 bytes of user data", bytes(range(101, 197)), b"V" * 16, b"T" * 96), ("P-384 key, no user data", bytes(range(101, 197)), None, b"T" * 96)):
+        try:
+            ev = oe.Evaluator({"constraints": 5, "isk_cert": key, "user_data": user, "IskCertificate": ctx.class_standin(k), "sig": sig, "siglen": len(sig)}, ctx.fold_sym(ex), opaque_return=False, call_value=calls)
+            built = ev.ev(ast.parse("IskCertificate(constraints=constraints, isk_cert=isk_cert, user_data=user_data)", mode="eval").body)
+            built.__dict__["signature"] = sig
+            ev.env["c"] = built
+            data = ev.ev(ast.parse("c.export()", mode="eval").body)
+            ev.env["data"] = data
+            parsed = ev.ev(ast.parse("IskCertificate.parse(data, siglen)", mode="eval").body)
+            ev.env["p"] = parsed
+            again = ev.ev(ast.parse("p.export()", mode="eval").body)
+        except oe.ModelRaise as mr:
+            probs.append(f"{label}: a valid certificate is refused ({mr})")
+            continue
+        except oe.Unsupported as ex_:
+            raise AnalysisError(f"C03.isk-roundtrip: IskCertificate left the fragment ({label}): {ex_}")
+        n += 1
+        fields = ("constraints", "flags", "user_data", "signature", "isk_public_key_data", "offset_present")
+        diff = [f_ for f_ in fields if built.__dict__.get(f_) != parsed.__dict__.get(f_)]
+        if diff or bytes(again) != bytes(data):
+            probs.append(f"{label}: parsed certificate differs in {diff or 're-exported bytes'}")
+    ctx.chk.analysed(ex.qual)
+    ctx.chk.decide(not probs, "C03.isk-roundtrip", f"{CB}::IskCertificate export<->parse", f"parse(export(c)) has the fields of c and exports to the same bytes ({n} model certificates)", "; ".join(probs[:2])[:500], "", A.loc(CB, ex.node))
+
+
 def run(ctx) -> None:
     ctx.chk.explain("C03: the per-key hash construction (fixed-width ECC coordinates, n||e, algorithm by key type) and the v1/v2.1 table rules are extracted and evaluated; the tool "
                     "paths that share the RKHT implementation are pinned to it, independent constructions are cross-checked against it; signer independence; root key record flags "
@@ -351,6 +405,7 @@ def run(ctx) -> None:
     ctx.rule(rule_wire)
     ctx.rule(rule_registry)
     ctx.rule(rule_roundtrip)
+    ctx.rule(rule_isk_roundtrip)
     ctx.rule(rule_ahab_v2_srk_ids)
     from ..engines import attrproto
     ctx.rule(lambda c: attrproto.check(c, "C03.ca-attribute", "ca", 4, 2))
